@@ -97,6 +97,7 @@ var pxHdrSets = [][][2]string{
 	{{"Connection", "close, X-Hop"}, {"X-Hop", "secret"}, {"X-Keep", "1"}, {"Keep-Alive", "timeout=5"}},
 	{{"Link", "<a>; rel=next"}, {"Link", "<b>; rel=prev"}, {"x-lower-case", "v"}, {"Warning", "199 - w1"}, {"Warning", "199 - w2"}},
 	{{"Content-Type", "application/x-rv"}, {"Proxy-Authenticate", "Basic"}, {"Trailer", "X-T"}, {"Upgrade", "h2c"}},
+	{{"Connection", "X-Hop2, keep-alive"}, {"X-Hop2", "s"}, {"X-Keep", "2"}},
 }
 
 func (s *pxState) originHandler(w http.ResponseWriter, r *http.Request) {
@@ -564,7 +565,7 @@ func init() {
 					}
 					return fmt.Sprintf("st=%d xc=%s cs=%s age=%s body=%s cl=%s cr=%s etag=%s lm=%s ar=%s h=%s%s up=[%s]", resp.StatusCode, xc, hx0Empty(cs), plain("Age"),
 						s.describeBody(id, resp, b, method), cl, plain("Content-Range"), g("ETag"), lmSym, plain("Accept-Ranges"),
-						canonHeaders(resp.Header, []string{"Set-Cookie", "Vary", "Link", "Warning", "X-Keep", "X-Hop", "X-Lower-Case", "Keep-Alive", "Proxy-Authenticate", "Trailer", "Upgrade", "Content-Type", "Location", "Via"}), trunc, up)
+						canonHeaders(resp.Header, []string{"Set-Cookie", "Vary", "Link", "Warning", "X-Keep", "X-Hop", "X-Hop2", "X-Lower-Case", "Keep-Alive", "Proxy-Authenticate", "Trailer", "Upgrade", "Content-Type", "Location", "Via"}), trunc, up)
 				case "shift":
 					ms, _ := strconv.ParseInt(f[2], 10, 64)
 					s.hooks().VerifShiftClock(time.Duration(ms) * time.Millisecond)
@@ -688,7 +689,7 @@ func genProxyTrace(c runCfg, o *Out, emit func(...string)) {
 				fields = append(fields, "age="+itoa(r.Intn(50)))
 			}
 			if r.Chance(35) {
-				fields = append(fields, "hdrset="+itoa(1+r.Intn(4)))
+				fields = append(fields, "hdrset="+itoa(1+r.Intn(5)))
 			}
 			emit("px", "origin", itoa(id), strings.Join(fields, ";"))
 		}
